@@ -6,6 +6,7 @@ import (
 	"os"
 	"path/filepath"
 	"regexp"
+	"sort"
 
 	"github.com/bmatcuk/doublestar/v4"
 	"gopkg.in/yaml.v3"
@@ -99,7 +100,13 @@ func ParseConfig(b []byte) (*Config, error) {
 		msg := replaceLineBreaks(err.Error())
 		return nil, errors.New(msg)
 	}
+	// Check patterns in sorted order so that the same error is reported when multiple patterns are invalid
+	pats := make([]string, 0, len(c.Paths))
 	for pat := range c.Paths {
+		pats = append(pats, pat)
+	}
+	sort.Strings(pats)
+	for _, pat := range pats {
 		if !doublestar.ValidatePattern(pat) {
 			return nil, fmt.Errorf("invalid glob pattern %q in \"paths\"", pat)
 		}
